@@ -89,7 +89,7 @@ CHECKS["C17"] = dict(level="model_checking", design="5/C17",
 EXTRA = {
  "C01": " Later additions: composition templates (every ordered triple of 37 one-hole constructs around 10 leaves, top level and function-local), functions defined in nested top-level scopes, and the size ladders of ladders.rs (jump distances, entry offsets, local/global/constant counts and block nesting around every power of two and across the compiler's size limit), each rung compared with the reference interpreter; scope events x kinds of use (every sequence of 2 / 3 events from a menu of 73 after a declaration, at top level, in a block and in a function body).",
  "C02": " Later additions: composition templates and all size-ladder programs (static exploration + conformance replay on code of up to 64 KiB). Heights are explored exactly; an instruction reached with more than 64 different heights is reported as lying on a stack-growing cycle.",
- "C05": " Later additions: calls with as many arguments as parameters across the 255-argument limit.",
+ "C05": " Later additions: calls with as many arguments as parameters across the 255-argument limit; 30 refused constructs quoting a long text with a wide character at every position. Also runs the repository's own command-line program, built from /repo in the plain dev profile (no optimisation) and in the release profile, one process per case with an 8 MiB stack, on long-run ladders (runs of white space / comment lines / long tokens at 2^10..2^18 (2^21), counted constructs, nesting around and beyond the parser's limit, run-time depth): no process is killed, both builds print the same, closed-form results where known.",
  "C07": " Later additions: block-ended expressions (als, zolang, functie) without parentheses as left/right operand of every operator and as callee in 16 statement and expression contexts.",
  "C09": " Later additions: functions defined in top-level blocks / branches / loop bodies nested to depth 3 with every subset of levels declaring the same name; slot-number ladders (many globals, nested block locals, each read back); scope events x kinds of use (nine kinds of use directly / inside a block, branch or one-shot loop that does or does not declare the name again / inside a function with that parameter / after a second declaration; every pair of events, three contexts).",
  "C10": " Later additions: literal-pristine family (literals through 12 value-preserving contexts, modified in place, re-evaluated); constant-pool ladders (ints, floats, strings; indices across 255 and 65 535; the same literals again after the pool has grown; at top level and inside a function).",
@@ -100,7 +100,7 @@ EXTRA = {
  "C06": " Later additions: strings of 3..33 characters differing at every pair of positions in opposite directions, at one position, by a wide character, or by being a prefix.",
  "C13": " Later additions: length ladders (strings and arrays around every power of two up to 257, one wide character at every position, every index read from both ends, writes around it); literal-pristine family; self-consistency where the model is silent (U8): after replacing a character by zero or several characters the printed text, lengte and per-character reads from both ends must describe the same string.",
  "C17": " Later additions: deviation-bounded long sessions: four ordinary ten-line sessions, every crash point of every line with the rest of the session as continuation, and every insertion of one or two of 16 deviation lines at every position (62 000 sessions of up to 12 lines).",
- "C16": " Later additions: the batch has 40 programs (values equal under == but not identical, e.g. 0.0 / -0.0, 1 / 1.0); one 6 000-program history; a symbol-table scan for writable statics; violations carry the worker's evaluation log so that replay reproduces.",
+ "C16": " Later additions: the batch has 40 programs (values equal under == but not identical, e.g. 0.0 / -0.0, 1 / 1.0); one 6 000-program history; a symbol-table scan for writable statics; violations carry the worker's evaluation log so that replay reproduces; recursion to within two levels of the deepest frame for 9 frame sizes in the profile table. Also runs the repository's own command-line program, built from /repo in the plain dev profile (no optimisation) and in the release profile, one process per case with an 8 MiB stack, on long-run ladders (runs of white space / comment lines / long tokens at 2^10..2^18 (2^21), counted constructs, nesting around and beyond the parser's limit, run-time depth): no process is killed, both builds print the same, closed-form results where known.",
 }
 for k, v in EXTRA.items():
     CHECKS[k]["text"] += v
